@@ -360,6 +360,114 @@ theorem C16_float_narrow_width_witness :
   norm_num at hv
   linarith
 
+/-! ## histories on one impl object: re-conversion
+
+`convertOnto` is `convert_qkeras_quantizer` on an object that already went through conversions.
+For every class but `QuantizedRelu` each conversion rewrites all fields that depend on the quantizer, so
+the record after ANY history is the record of a fresh conversion of the last quantizer — in particular a
+po2 object converted from a capped and then from an uncapped quantizer carries no cap. -/
+
+/-- a first conversion on a freshly constructed object is `ofQuantizer` (every class) -/
+theorem C16_convert_fresh (q : QKerasQ) (f : QRec) (hf : freshOf q.cls = some f) :
+    convertOnto f q = ofQuantizer q := by
+  unfold freshOf at hf
+  unfold convertOnto ofQuantizer
+  split at hf
+  all_goals first
+    | (rename_i hq; injection hf with hf; subst hf; (try simp only [hq])
+       all_goals first | rfl | (cases q.use01 <;> rfl) | (cases q.negSlopeNonzero <;> rfl))
+    | (cases hf)
+
+/-- re-conversion: after a conversion from `q`, a conversion from `q2` of the same class gives the
+    record of a fresh conversion of `q2` (every class except `quantized_relu`) -/
+theorem C16_reconvert_step (q q2 : QKerasQ) (hc : q2.cls = q.cls) (hr : q.cls ≠ "quantized_relu")
+    (r : QRec) (h : ofQuantizer q = some r) : convertOnto r q2 = ofQuantizer q2 := by
+  unfold ofQuantizer at h
+  unfold convertOnto ofQuantizer
+  rw [hc]
+  split at h
+  all_goals first
+    | (rename_i hq; injection h with h; subst h; (try simp only [hq])
+       all_goals first | rfl | (cases q2.use01 <;> cases q.use01 <;> rfl) | exact absurd hq hr)
+    | (cases h)
+
+/-- every class the factory knows has a constructor state and a conversion -/
+theorem ofQuantizer_isSome_of_fresh (q : QKerasQ) (h : (freshOf q.cls).isSome) :
+    (ofQuantizer q).isSome := by
+  unfold freshOf at h
+  unfold ofQuantizer
+  split at h <;> simp_all
+
+/-- **any history**: on one impl object of a class other than `QuantizedRelu`, after an arbitrary
+    sequence of conversions the record is the one a FRESH object gets from the last quantizer.  (A
+    `PowerOfTwo` object converted from `quantized_po2(b, max_value=M)` and then from
+    `quantized_po2(b)` carries no cap: `ofQuantizer` of the latter has `maxValPo2 = none`.) -/
+theorem C16_reconvert_history (cls : String) (hr : cls ≠ "quantized_relu")
+    (hcls : (freshOf cls).isSome) (qs : List QKerasQ) (q : QKerasQ)
+    (hall : ∀ x ∈ qs ++ [q], x.cls = cls) :
+    convertHistory cls (qs ++ [q]) = ofQuantizer q := by
+  induction qs using List.reverseRecOn generalizing q with
+  | nil =>
+    have hq : q.cls = cls := hall q (by simp)
+    obtain ⟨f, hf⟩ := Option.isSome_iff_exists.mp hcls
+    simp only [convertHistory, List.nil_append, List.foldl_cons, List.foldl_nil, hf, hq, if_true]
+    exact C16_convert_fresh q f (hq ▸ hf)
+  | append_singleton qs p ih =>
+    have hq : q.cls = cls := hall q (by simp)
+    have hp : p.cls = cls := hall p (by simp)
+    have ihp := ih p (fun x hx => hall x (by
+      simp only [List.mem_append, List.mem_singleton] at hx ⊢
+      rcases hx with hx | hx
+      · exact Or.inl (Or.inl hx)
+      · exact Or.inl (Or.inr hx)))
+    have hsome : (ofQuantizer p).isSome := ofQuantizer_isSome_of_fresh p (hp ▸ hcls)
+    obtain ⟨r, hrp⟩ := Option.isSome_iff_exists.mp hsome
+    unfold convertHistory at ihp ⊢
+    rw [List.foldl_append, ihp, hrp]
+    simp only [List.foldl_cons, List.foldl_nil, hq, if_true]
+    exact C16_reconvert_step p q (hq.trans hp.symm) (hp ▸ hr) r hrp
+
+/-- `QuantizedRelu`: the exact relation.  Re-conversion equals a fresh conversion except for the sign
+    flag, which is only ever SET: it stays `true` once a quantizer with a negative slope was seen. -/
+theorem C16_reconvert_relu_partial (q q2 : QKerasQ) (hq : q.cls = "quantized_relu")
+    (hq2 : q2.cls = "quantized_relu") (r : QRec) (h : ofQuantizer q = some r) :
+    ∃ r2, ofQuantizer q2 = some r2 ∧
+      convertOnto r q2 = some { r2 with signed := q2.negSlopeNonzero || q.negSlopeNonzero } ∧
+      ((q.negSlopeNonzero = false ∨ q2.negSlopeNonzero = true) → convertOnto r q2 = some r2) := by
+  unfold ofQuantizer at h
+  unfold convertOnto ofQuantizer
+  simp only [hq, hq2] at h ⊢
+  injection h with h
+  subst h
+  refine ⟨_, rfl, ?_, ?_⟩
+  · cases q2.negSlopeNonzero <;> cases q.negSlopeNonzero <;> rfl
+  · rintro (h | h) <;> simp [h] <;> (cases q2.negSlopeNonzero <;> rfl)
+
+/-- **Counterexample (history).**  One `QuantizedRelu` object converted from
+    `quantized_relu(4, 1, negative_slope=0.25)` and then from `quantized_relu(4, 1)`: the record still
+    says "signed" (4 bits, 1 integer bit, lsb 2^-2, codes −8…7), a fresh conversion says unsigned (lsb
+    2^-3, codes 0…15).  The value 1/8, which `quantized_relu(4,1)` emits, is a value of the fresh type
+    and NOT of the re-converted one — every multiplier built from the reused object is sized for the
+    wrong lattice. -/
+theorem C16_reconvert_relu_counterexample :
+    let a : QKerasQ := { cls := "quantized_relu", bits := 4, integer := 1, negSlopeNonzero := true }
+    let b : QKerasQ := { cls := "quantized_relu", bits := 4, integer := 1, negSlopeNonzero := false }
+    let fresh : QRec := { mode := 0, name := .quantized_relu, bits := 4, intBits := 1, signed := false,
+                          isFloat := false, isPo2 := false, maxValPo2 := none, use01 := false }
+    let stale : QRec := { fresh with signed := true }
+    convertHistory "quantized_relu" [a, b] = some stale ∧ ofQuantizer b = some fresh ∧
+      stale ≠ fresh ∧ Val fresh (1 / 8) ∧ ¬ Val stale (1 / 8) := by
+  refine ⟨by decide, by decide, by decide, ?_, ?_⟩
+  · exact ⟨1, by decide, by decide, by simp [fixedLsb, b2i, pow2]⟩
+  · rintro ⟨k, _, _, hk⟩
+    have hl : fixedLsb 4 1 true = -2 := by decide
+    simp only [hl] at hk
+    have h4 : pow2 (-2) = 1 / 4 := by rw [pow2_eq_zpow]; norm_num
+    rw [h4] at hk
+    have h2 : ((2 * k : ℤ) : ℚ) = 1 := by push_cast; linarith
+    have h3 : (2 * k : ℤ) = 1 := by exact_mod_cast h2
+    omega
+
 /-! ## fixed × (ternary | ±1 binary) : Mux -/
 
 private theorem mux_unit_core (q : QRec) (hq : WFfixed q) (a u : ℚ) (ha : Val q a)
